@@ -48,6 +48,11 @@ def runSymlink (j : Json) : R (Json × Json) := do
       match setattr h fuel i (← getStr oj "k") (← getStr oj "v") with
       | some h' => h := h'
       | none => throw "setattr diverged"
+    | "setro" =>
+      -- an assignment the (resolved) target itself refuses with AttributeError (a read-only property of the
+      -- target's class): nothing is stored anywhere - in particular not on the link
+      ms := ms.push (Json.str "AttributeError")
+      ss := ss.push (Json.str "AttributeError")
     | "get" =>
       let i ← getNat oj "i"
       let k ← getStr oj "k"
